@@ -120,19 +120,20 @@ def build_model(case):
     nfiles = len(case['files'])
     for fi, f in enumerate(case['files']):
         writes = []         # ('write', t_ms, {int reg: v}, serial) | ('comment', s) | ('raw', text)
-        items = []          # logical outcome per physical line: ('rec', t, id) | ('lostjs', t, None) | ('unparsable', None, None)
+        items = []          # outcome per physical line: (kind, t, id, line_no), kind in rec | lostjs | unparsable
         pend_text, pend_kind, pend_t, pend_ids = '', None, None, []
 
         def emit(text, kind, t, ids, plain_write=None):
+            line_no = len(writes)           # 0-based physical line, as parse_record counts them
             if kind in ('comment', 'blank'):
                 writes.append(plain_write if plain_write else ('raw', text))
                 return
             if kind == 'rec':
                 writes.append(plain_write)
-                items.append(('rec', t, ids[0]))
+                items.append(('rec', t, ids[0], line_no))
                 return
             writes.append(('raw', text))
-            items.append((kind, t if kind == 'lostjs' else None, None))
+            items.append((kind, t if kind == 'lostjs' else None, None, line_no))
 
         for ln in f['lines']:
             k = ln['k']
@@ -201,11 +202,12 @@ def build_model(case):
         if not items or items[0][0] != 'rec':
             raise common.HarnessError('case violates the precondition: first record of file %d is not intact' % fi)
         stamps = [it[1] for it in items if it[1] is not None]
+        intact = [it[1] for it in items if it[0] == 'rec']
         age = nfiles - 1 - fi
         suffix = '' if age == 0 else '.%d' % (age - 1 + (0 if case.get('numbering', 'zero') == 'zero' else 1))
         store = f.get('store', 'plain') if age else 'plain'
         m.files.append({'writes': writes, 'items': items, 'first_t': items[0][1], 'last_t': stamps[-1],
-                        'flat': len(set(stamps)) == 1, 'suffix': suffix, 'store': store,
+                        'flat': len(set(stamps)) == 1, 'intact_flat': len(set(intact)) == 1, 'suffix': suffix, 'store': store,
                         'ids': [it[2] for it in items if it[0] == 'rec']})
 
     s = case['settings']
@@ -246,7 +248,7 @@ def build_model(case):
     m.expected = []
     m.first_unparsable = None           # position in expected[] before which the first unparsable line sits
     for fi in range(start, len(m.files)):
-        for kind, t, i in m.files[fi]['items']:
+        for kind, t, i, _ in m.files[fi]['items']:
             if t is not None and m.deadline is not None and t >= m.deadline:
                 break                   # the loader stops reading at the first stamp at/after the deadline
             if kind == 'rec':
@@ -273,11 +275,21 @@ def next_release(m, h):
 # execution against cpppo
 
 
+class StepBound(BaseException):
+    """load() consulted the clock / opened files far more often than the history has lines: it is looping.  Derives
+    from BaseException so that loader.load()'s own `except Exception` cannot swallow it."""
+
+
 class Clock(object):
     def __init__(self):
         self.now = 0.0
+        self.calls = 0
+        self.bound = None
 
     def __call__(self):
+        self.calls += 1
+        if self.bound is not None and self.calls > self.bound:
+            raise StepBound('clock consulted %d times in one load()' % self.calls)
         return self.now
 
 
@@ -312,11 +324,31 @@ def probe_class(files):
     if cls is None:
         class Probe(files.loader):
             vp_load = -1
+            vp_opens_this_load = 0
+            vp_open_bound = 1 << 30
+            vp_opens = vp_releases = None
+
+            # `_strict` is a plain attribute of loader; here a pass-through property that notes each True -> False
+            @property
+            def _strict(self):
+                return self.__dict__.get('vp_strict', False)
+
+            @_strict.setter
+            def _strict(self, value):
+                old = self.__dict__.get('vp_strict', False)
+                self.__dict__['vp_strict'] = value
+                if old and not value and self.vp_releases is not None:
+                    self.vp_releases.append({'seq': len(self.vp_opens) + len(self.vp_releases), 'load': self.vp_load,
+                                             'suffix': self._f, 'n': self._n})
 
             def open(self, target=None, after=True, lookahead=None, strict=False, encoding=None):
-                rec = {'load': self.vp_load, 'after': bool(after), 'strict': bool(strict), 'suffix': None,
+                rec = {'seq': len(self.vp_opens) + len(self.vp_releases), 'load': self.vp_load, 'after': bool(after),
+                       'strict': bool(strict), 'suffix': None,
                        'target_ms': None if target is None else int(round(files.timestamp(target).value * 1000))}
                 self.vp_opens.append(rec)
+                self.vp_opens_this_load += 1
+                if self.vp_opens_this_load > self.vp_open_bound:
+                    raise StepBound('%d open() calls in one load()' % self.vp_opens_this_load)
                 for item in files.loader.open(self, target=target, after=after, lookahead=lookahead,
                                               strict=strict, encoding=encoding):
                     if rec['suffix'] is None:
@@ -362,7 +394,8 @@ def execute(case, m):
     scratch = tempfile.mkdtemp(prefix='vp-c18-')
     saved = (files.timer, times.timer, files.traceback)
     ld = None
-    tr = {'loads': [], 'delivered': [], 'opens': [], 'exc': shim.seen, 'awaited': set(), 'after_complete': 0}
+    tr = {'loads': [], 'delivered': [], 'opens': [], 'releases': [], 'exc': shim.seen, 'awaited': set(),
+          'after_complete': 0}
     try:
         path = write_history(files, m, scratch)
         files.timer = times.timer = clock
@@ -375,7 +408,9 @@ def execute(case, m):
             kw['values'] = dict((int(r), v) for r, v in m.defaults.items())
         ld = Probe(path, historical=m.hist_ms / 1000.0, basis=m.basis_arg, factor=m.factor,
                    lookahead=m.lookahead, **kw)
-        ld.vp_opens = tr['opens']
+        ld.vp_opens, ld.vp_releases = tr['opens'], tr['releases']
+        ld.vp_open_bound = 3 * len(m.files) + 8
+        step_bound = 40 * (len(m.recs) + len(m.files)) + 200
         tr['basis'] = ld.basis.value
         suffix_file = {}
         for fi, f in enumerate(m.files):
@@ -396,7 +431,16 @@ def execute(case, m):
                 kwl['limit'] = limit
             if up is not None:
                 kwl['upcoming'] = up
-            cur, events = ld.load(**kwl)
+            ld.vp_opens_this_load = 0
+            clock.calls, clock.bound = 0, step_bound
+            try:
+                cur, events = ld.load(**kwl)
+            except StepBound as exc:
+                tr['livelock'] = {'load': ld.vp_load, 'h': h, 'why': str(exc),
+                                  'opens_in_load': [o['suffix'] for o in tr['opens'] if o['load'] == ld.vp_load][:8]}
+                raise
+            finally:
+                clock.bound = None
             evs = []
             for e in events:
                 v = e['timestamp'].value * 1000.0
@@ -421,6 +465,37 @@ def execute(case, m):
 
         h = m.h0
         end_t = max(r['t'] for r in m.recs.values())
+        try:
+            h = drive(case, m, tr, ld, one_load, h, end_t)
+        except StepBound:
+            tr['final_state'] = 'LIVELOCK'
+            tr['completed_at'] = len(tr['loads'])
+            for o in tr['opens'] + tr['releases']:
+                o['file'] = suffix_file.get(o['suffix'])
+            return tr
+        tr['final_state'] = ld.statename.get(ld.state, str(ld.state))
+        tr['completed_at'] = len(tr['loads'])
+        if tr['final_state'] == 'COMPLETE':
+            before = len(tr['delivered'])
+            one_load(h + 1000, None, None)
+            tr['after_complete'] = len(tr['delivered']) - before
+            del tr['delivered'][before:]
+            tr['loads'].pop()
+        for o in tr['opens'] + tr['releases']:
+            o['file'] = suffix_file.get(o['suffix'])
+        return tr
+    finally:
+        files.timer, times.timer, files.traceback = saved
+        try:
+            if ld is not None and getattr(ld, '_i', None) is not None:
+                ld._i.close()
+        except Exception:
+            pass
+        shutil.rmtree(scratch, ignore_errors=True)
+
+
+def drive(case, m, tr, ld, one_load, h, end_t):
+    if True:
         for si, step in enumerate(case['schedule'] or [{'op': 'add', 'ms': 0}]):
             if si:
                 if step['op'] == 'add':
@@ -449,25 +524,7 @@ def execute(case, m):
                 break
             h = max(h, end_t) + m.la + 10000
             one_load(h, None, None)
-        tr['final_state'] = ld.statename.get(ld.state, str(ld.state))
-        tr['completed_at'] = len(tr['loads'])
-        if tr['final_state'] == 'COMPLETE':
-            before = len(tr['delivered'])
-            one_load(h + 1000, None, None)
-            tr['after_complete'] = len(tr['delivered']) - before
-            del tr['delivered'][before:]
-            tr['loads'].pop()
-        for o in tr['opens']:
-            o['file'] = suffix_file.get(o['suffix'])
-        return tr
-    finally:
-        files.timer, times.timer, files.traceback = saved
-        try:
-            if ld is not None and getattr(ld, '_i', None) is not None:
-                ld._i.close()
-        except Exception:
-            pass
-        shutil.rmtree(scratch, ignore_errors=True)
+        return h
 
 
 # ------------------------------------------------------------------------------------------------
@@ -517,6 +574,8 @@ def analyse(case, m, tr):
                                                               'frames': exc['frames'][-4:]},
                      'records_lost': len(lost), 'first_lost_id': lost[0] if lost else None},
                     'damaged line skipped, every other record delivered, state COMPLETE'))
+    elif final == 'LIVELOCK':
+        dead_from = 0           # reported below, by the reason its load() kept re-opening files
     elif final != 'COMPLETE':
         out.append(('completes', 'never-completes:' + final,
                     {'state': final, 'future': loads[-1]['future'] if loads else None, 'loads': len(loads)},
@@ -524,6 +583,53 @@ def analyse(case, m, tr):
         dead_from = 0
     elif tr['after_complete']:
         out.append(('completes', 'events-after-complete', {'events': tr['after_complete']}, 'no events once COMPLETE'))
+
+    # ---- mechanism: open() calls that did not advance to a newer file, and why the guard let them
+    releases = tr['releases']
+    good = [o for o in opens if o.get('file') is not None]
+    bad_opens = [(x, y) for x, y in zip(good, good[1:]) if y['file'] <= x['file']]
+
+    def why(x, y):
+        if y['strict']:
+            return 'strict-open-selected-non-advancing-file', None
+        rel = [r for r in releases if r.get('file') == x['file'] and x['seq'] < r['seq'] < y['seq']]
+        if not rel:
+            return 'non-strict-open-although-strict-was-not-released', None
+        fx = m.files[x['file']]
+        hit = [it for it in fx['items'] if it[3] == rel[-1]['n']]
+        if not hit:
+            return 'strict-released-at-unknown-line', rel[-1]['n']
+        it = hit[0]
+        if it is fx['items'][0]:
+            return ('strict-released-by-first-record-of-file-' +
+                    ('after-AWAITING' if x['file'] in tr['awaited'] else 'without-AWAITING')), it[3]
+        if it[0] == 'lostjs':
+            return 'strict-released-by-timestamp-of-damaged-record', it[3]
+        if it[0] == 'rec' and it[1] > fx['first_t']:
+            return 'open-selected-non-advancing-file-after-legitimate-release', it[3]
+        return 'strict-released-by-non-increasing-timestamp', it[3]
+
+    explained_files, order_explained, livelock_explained = set(), False, False
+    for x, y in bad_opens:
+        reason, line_no = why(x, y)
+        explained_files.add(y['file'])
+        order_explained = order_explained or y['file'] < x['file']
+        looping = final == 'LIVELOCK' and y['load'] == tr['livelock']['load']
+        livelock_explained = livelock_explained or looping
+        out.append(('completes' if looping else 'exactly-once', 'reopen:' + reason,
+                    {'symptom': ('load() never returns: ' if looping else '') +
+                                ('same file opened again' if y['file'] == x['file'] else 'older file opened'),
+                     'after_file': x['suffix'], 'opened': y['suffix'], 'strict': y['strict'],
+                     'target': None if y['target_ms'] is None else y['target_ms'] - m.base,
+                     'strict_released_at_line': line_no, 'load': y['load'],
+                     'opens': [{k: o.get(k) for k in ('load', 'strict', 'suffix')} for o in opens][:10]},
+                    'after a file ends the next newer file is opened, each file once'))
+    if final == 'LIVELOCK' and not livelock_explained:
+        ll = tr['livelock']
+        out.append(('completes', 'livelock:clock-polled-without-progress',
+                    {'load_that_never_returned': ll['load'], 'h': ll['h'] - m.base, 'why': ll['why'],
+                     'opens_in_that_load': ll['opens_in_load']},
+                    'load() returns after reading at most every line once'))
 
     # ---- exactly once, in order, right content
     counts = {}
@@ -537,44 +643,27 @@ def analyse(case, m, tr):
             out.append(('exactly-once', 'content:timestamp-differs', brief(d), {'t': r['t'] - m.base}))
         if d['values'] != r['values'] or d['command'] != 'register':
             out.append(('exactly-once', 'content:values-differ', brief(d), {'values': r['values']}))
-        if d['id'] not in m.exp_set:
-            why = ('damaged-line' if r['lost'] else 'before-start-file' if r['file'] < m.start else 'past-deadline')
-            out.append(('exactly-once', 'unexpected-record:' + why, brief(d),
+        if d['id'] not in m.exp_set and r['file'] not in explained_files:
+            why_not = ('damaged-line' if r['lost'] else 'before-start-file' if r['file'] < m.start else 'past-deadline')
+            out.append(('exactly-once', 'unexpected-record:' + why_not, brief(d),
                         'replay starts with file %d%s' % (m.start, '' if m.deadline is None else ', stops at the deadline')))
     firsts, seen = [], set()
     for d in D:
         if d['id'] is not None and d['id'] not in seen:
             seen.add(d['id'])
             firsts.append(d['id'])
-    if any(b < a for a, b in zip(firsts, firsts[1:])):
+    if any(b < a for a, b in zip(firsts, firsts[1:])) and not order_explained:
         out.append(('exactly-once', 'order:records-out-of-sequence', firsts[:40], 'ids increasing'))
-    if any(b['t'] < a['t'] for a, b in zip(D, D[1:])):
+    if any(b['t'] < a['t'] for a, b in zip(D, D[1:])) and not order_explained:
         out.append(('exactly-once', 'order:timestamp-decreases', [d['t'] - m.base for d in D][:40], 'non-decreasing'))
 
-    # duplicates, attributed per file through the observed open() sequence
-    dup_files = sorted(set(m.recs[i]['file'] for i, c in counts.items() if c > 1))
+    # duplicates that no non-advancing open() explains
+    dup_files = sorted(set(m.recs[i]['file'] for i, c in counts.items() if c > 1) - explained_files)
     for f in dup_files:
-        reopen = None
-        for a, b in zip(opens, opens[1:]):
-            if a.get('file') == f and b.get('file') == f:
-                reopen = b
-                break
-        if reopen is None:
-            ctx = 'no-reopen'
-        elif reopen['strict']:
-            ctx = 'file-reopened:strict-open-selected-same-file'
-        elif not m.files[f]['flat']:
-            ctx = 'file-reopened:non-strict:file-has-increasing-timestamps'
-        elif f in tr['awaited']:
-            ctx = 'file-reopened:strict-released-by-first-record-after-AWAITING'
-        else:
-            ctx = 'file-reopened:strict-released-without-increasing-timestamp'
         ids = [i for i in m.files[f]['ids'] if counts.get(i, 0) > 1]
-        out.append(('exactly-once', 'dup:' + ctx,
+        out.append(('exactly-once', 'dup:without-reopen',
                     {'file': f, 'suffix': m.files[f]['suffix'], 'ids_delivered_twice_or_more': ids,
-                     'counts': [counts[i] for i in ids],
-                     'opens': [{k: o[k] for k in ('load', 'strict', 'suffix')} for o in opens][:12]},
-                    'each record of the file once'))
+                     'counts': [counts[i] for i in ids]}, 'each record once'))
 
     # missing
     missing = [i for i in m.expected if i not in counts]
@@ -600,7 +689,7 @@ def analyse(case, m, tr):
                 ctx = 'file-never-opened:%s-open:%s:predecessor-%s' % (
                     'strict' if jump['strict'] else 'non-strict',
                     'equal-boundary-timestamp' if jump['target_ms'] == m.files[f]['first_t'] else 'later-first-timestamp',
-                    'flat' if m.files[pred]['flat'] else 'has-increasing-timestamps')
+                    'flat' if m.files[pred]['intact_flat'] else 'has-increasing-timestamps')
             out.append(('exactly-once', 'skip:' + ctx,
                         {'file': f, 'suffix': m.files[f]['suffix'], 'ids_never_delivered': ids,
                          'opens': [{k: o.get(k) for k in ('load', 'strict', 'suffix', 'target_ms')} for o in opens][:12]},
